@@ -406,7 +406,9 @@ func (c *Chain) BlockWorker(ctx context.Context) {
 		default:
 			cr := c.GetCurrentRound()
 			lfb := c.GetLatestFinalizedBlock()
-			bItem, ok := c.blockBuffer.First()
+			// take the block out in one step: a block with a lower round pushed between a
+			// First() and a separate Pop() would be the one removed, and lost unprocessed
+			bItem, ok := c.blockBuffer.Pop()
 			if !ok {
 				// no block in buffer to process
 				if !node.Self.IsSharder() {
@@ -421,7 +423,6 @@ func (c *Chain) BlockWorker(ctx context.Context) {
 				time.Sleep(100 * time.Millisecond)
 				continue
 			}
-			c.blockBuffer.Pop()
 
 			// stuckCheckTimer.Reset(10 * time.Second)
 			b := bItem.Data.(*block.Block)
